@@ -388,6 +388,112 @@ for _n in range(4):
     harness(PROP, RESP + '.set_headers', name='set_headers[pairs=%d]' % _n, setup=_setup, fix={'pairs': _n})(_set_headers)
 
 
+# --- set_headers for an iterable of ARBITRARY length: loop contract instead of unrolling ------------------------------------------
+#
+# The iterable is a sequence of symbolic length n whose i-th element is an arbitrary pair (name_i, value_i).  The specification is the
+# in-order fold  F(0) = H,  F(i+1) = F(i)[lower(name_i) := str(value_i)]  (F uninterpreted; its defining equation is assumed exactly at
+# the index the loop contract visits -- a conservative extension, F is primitive recursive).  Loop invariant: resp._headers == F(i),
+# 'set-cookie' is not a key of F(i), F(i) is lower-case at an arbitrary key.  Exit without exception: the map is F(n).  An exception
+# leaves at the first pair whose lower-cased name is 'set-cookie' (the loop got that far without one) with the map F(j).
+
+
+class _Pairs:
+    """Stub iterable: symbolic length, fresh pair at the index visited; records the visit for the specification side."""
+
+    __pyvc_symbolic__ = True
+    __pyvc_stub__ = True
+
+    def __init__(self, v, F, n, as_mapping):
+        self.v, self.F, self.n = v, F, n
+        self.visited = None
+        if as_mapping:
+            self.items = self._items
+
+    def _items(self):
+        return self
+
+    def __pyvc_truth__(self):
+        return True
+
+    def __pyvc_seq__(self):
+        from pyvc.core import FnSeq
+
+        def item(i):
+            v = self.v
+            name = v.str('name_i')
+            value = value_input(v, 'value_i')
+            ln = lower(name)
+            self.visited = (i, name, value)
+            # defining equation of the fold at this index
+            v.assume(Implies(ln != SC, mk_bool(self.F(_ix(i) + 1) == Store(self.F(_ix(i)), ln, to_s(v, value)))))
+            return (name, value)
+
+        return FnSeq(self.n, item)
+
+
+def _ix(i):
+    from pyvc.core import _i
+    return _i(i)
+
+
+def _set_headers_any_length(v):
+    """set_headers over a mapping / an iterable of pairs of ARBITRARY (symbolic) length."""
+    v.expect_covers('applied-all', 'rejected-at-some-index')
+    if v.concrete:
+        v.cut()  # loop-contract obligations have no single concrete input; the unrolled variants above carry the replayable witnesses
+    as_mapping = v.choose(2, 'mapping?')
+    other = v.str('other_key')
+    hdrs, H = header_map(v, [other])
+    O = opt_sort()
+    arr_sort = hdrs.arr.sort()
+    F = z3.Function('C15_fold', z3.IntSort(), arr_sort)
+    n = v.int('n_pairs', 0)
+    v.assume(mk_bool(F(0) == hdrs.arr))
+    v.assume(Implies(H.has(other), lower_case_key(other)))
+    X = extra_lines(v)
+    X0 = None if X is None else list(X)
+    resp = mk_resp(v, hdrs, X)
+    pairs = _Pairs(v, F, n, as_mapping)
+    v.ctx.ghost['fold'] = F
+    v.ctx.ghost['other'] = other
+    out = v.call(resp, pairs)
+    H1 = map_of(v, resp)
+    v.check('extra-lines-and-cookies-untouched', untouched(v, resp, X, X0, None))
+    if out.exc is not None:
+        v.check('set-cookie-cannot-be-set-in-bulk', is_not_supported(v, out))
+        v.check('only-a-set-cookie-pair-is-rejected', pairs.visited is not None and lower(pairs.visited[1]) == SC)
+        if pairs.visited is not None:
+            j = pairs.visited[0]
+            v.check('pairs-before-the-rejected-one-applied-in-order-and-nothing-else', mk_bool(H1.raw == F(_ix(j))))
+        v.cover('rejected-at-some-index')
+    else:
+        v.check('pairs-applied-in-order-under-lower-cased-names-and-nothing-else', mk_bool(H1.raw == F(_ix(n))))
+        v.cover('applied-all')
+    v.check('set-cookie-never-becomes-a-key', Not(H1.has(SC)))
+    v.check('keys-stay-lower-case', Implies(H1.has(other), lower_case_key(other)))
+
+
+def _setup_any_length(reg, ex):
+    from pyvc.interp import LoopSpec
+    _setup(reg, ex)
+
+    from pyvc.core import cur
+
+    def inv(L):
+        g = cur().ghost
+        F, other = g['fold'], g['other']
+        i = _ix(L['_i_loop'])
+        FM = Map(F(i))
+        return And(mk_bool(L['_headers'].arr == F(i)), Not(FM.has(SC)), Implies(FM.has(other), lower_case_key(other)))
+
+    # registered under the header text AND the ordinal (a renamed loop variable keeps the ordinal, reordered loops keep the header)
+    reg.loops[('falcon.response:Response.set_headers', 'for (name, value) in headers')] = LoopSpec(inv=inv, name='for#0')
+    reg.loops[('falcon.response:Response.set_headers', 'for#0')] = LoopSpec(inv=inv, name='for#0')
+
+
+harness(PROP, RESP + '.set_headers', name='set_headers[any-length]', setup=_setup_any_length)(_set_headers_any_length)
+
+
 @harness(PROP, RESP + '.headers', setup=_setup)
 def headers_copy(v):
     k1 = v.str('key')
@@ -927,6 +1033,26 @@ class Jar:
 
     def values(self):
         return list(self.entries)
+
+    # SimpleCookie is a dict: truth value = non-empty, `name in jar`, len(jar), iteration over the names
+    def __pyvc_truth__(self):
+        return len(self.entries) > 0
+
+    def __contains__(self, name):
+        return self._find(name) is not None
+
+    def __len__(self):
+        return len(self.entries)
+
+    def __iter__(self):
+        return iter([m.key for m in self.entries])
+
+    def keys(self):
+        return [m.key for m in self.entries]
+
+    def get(self, name, default=None):
+        m = self._find(name)
+        return default if m is None else m
 
 
 def cookie_jar(v, label='jar'):
@@ -1626,6 +1752,9 @@ KILLS = [
     # 3  Set-Cookie guard removed from set_headers
     ('falcon/response.py', "            if name == 'set-cookie':\n                raise HeaderNotSupported('This method cannot be used to set cookies')\n\n            _headers[name] = value\n",
      "            _headers[name] = value\n", 'Response.set_headers#set-cookie-cannot-be-set-in-bulk'),
+    # 3b set_headers keeps an existing value (first one wins): breaks the fold at an arbitrary index of an arbitrary-length iterable
+    ('falcon/response.py', "                raise HeaderNotSupported('This method cannot be used to set cookies')\n\n            _headers[name] = value\n",
+     "                raise HeaderNotSupported('This method cannot be used to set cookies')\n\n            _headers.setdefault(name, value)\n", 'Response.set_headers#inv:for#0:preserve'),
     # 4  append overwrites instead of joining
     ('falcon/response.py', "            if name in self._headers:\n                value = self._headers[name] + ', ' + value\n\n", '',
      'Response.append_header#joins-with-comma-space-when-present-else-stores-and-nothing-else'),
@@ -1766,14 +1895,14 @@ ASSUMPTIONS = [
     'although the WSGI list accepts it and plain headers accept latin-1: not covered by the statement, see NOT_DECIDED)',
     'etag setter: the value is a non-empty str (resp.etag = "" raises IndexError in _format_etag_header)',
     'unset_cookie: the name is one the jar accepts (a CookieError for an illegal name is not translated by unset_cookie) and samesite, when given, is non-empty',
-    'set_headers: the iterable has 0..3 pairs (CONCRETE lengths, symbolic names and values; mapping keys pairwise distinct); no loop invariant for arbitrary length',
+    'set_headers: proved for an iterable / mapping of ARBITRARY length by a loop contract (map == in-order fold F(i); the defining equation of the uninterpreted fold F is assumed at the visited index only); the variants with 0..3 CONCRETE pairs are kept because their counter-models replay natively',
     'Response.__init__ without options: ResponseOptions.__init__ runs from its source, the Handlers() table it creates is an opaque object (C11 / C12)',
     'inputs deliberately left at one value because the method under contract does not read them (they only appear in frame clauses): the cookie jar is None for '
     'the plain-header / typed-property / append_link / set_stream harnesses, the raw-line list is None for append_link / set_stream / headers, '
     'resp.options is absent for every method except set_cookie and __init__ (no other method of this chain reads it), resp.stream is None before set_stream',
 ]
 NOT_DECIDED = [
-    'set_headers for iterables longer than 3 pairs (the loop is unrolled for lengths 0..3; the body is the same three statements per pair)',
+    'set_headers[any-length]: a mapping argument is modelled as an object whose items() yields pairs (keys of a real mapping are pairwise distinct -- not assumed: the fold is right for repeated names too); termination of the loop',
     'the cross product of ALL set_cookie attribute arguments is explored for one concrete legal name/value ("sid", "abc123"); arbitrary names and values '
     '(non-ASCII -> KeyError/ValueError, names the jar rejects -> KeyError, jar already holding cookies) are explored in the variants jar-states, '
     'samesite-spellings and max-age-coercion where fewer attributes vary at a time',
